@@ -853,6 +853,38 @@ func c08ItemLoops(c *Ctx, a *sketchAnchors) {
 	}
 	c.R.floor(rule, "item loops in bin decoders", nloops, 5)
 	c08BatchSizes(c, rule, withNewHelpers(fns...))
+	// every store's bin decoder reports success only after it has read something: a path that returns nil has called
+	// a primitive decoder, or handed the cursor to another bin decoder (a block that lost everything after its flag
+	// byte is a truncated block, not an empty one)
+	if storeI := c.P.NamedType(pkgStore, "Store"); storeI != nil {
+		nd := 0
+		for _, t := range c.P.Implementations(storeI) {
+			f := c.P.DeclaredMethod(t, "DecodeAndMergeWith")
+			if f == nil {
+				continue
+			}
+			nd++
+			paths, _ := exec(c, f, nil, 1)
+			bad := ""
+			for _, p := range paths {
+				if len(p.RetT) != 1 || p.RetNil(0) != 1 {
+					continue
+				}
+				read := false
+				for _, e := range p.Calls() {
+					if e.Call.Op == "call" && (strings.Contains(e.Call.Sym, "encoding.Decode") || strings.HasSuffix(e.Call.Sym, "DecodeAndMergeWith")) {
+						read = true
+					}
+				}
+				if !read {
+					bad = "a path reports success without having decoded anything: [" + p.String() + "]"
+				}
+			}
+			c.R.check(bad == "", rule, t.Obj().Name()+".DecodeAndMergeWith/success-after-reading", shortFn(f), c.fpos(f),
+				"nil is returned only after a primitive decoder (or another bin decoder) has run", firstNonEmpty(bad, fmt.Sprintf("%d path(s)", len(paths))))
+		}
+		c.R.floor(rule, "store bin decoders", nd, 5)
+	}
 }
 
 // c08BatchStep decides the batch form of an item counter: `step` (the amount added to the counter in one turn of the
